@@ -6,8 +6,8 @@ only the worker pool is replaced (by a recorder of what is handed to process()) 
 ProgressLog is virtual, so that *which* progress reports reach the progress file is a generated choice.
 
 Oracle (flat, written from the definition of a tile pyramid, not from the walker):
-  required   every in-grid meta tile of a chosen level that contains a point of the task coverage lying more
-             than 0.1 px (of that level) inside its bbox                              -> must be handed
+  required   every in-grid meta tile of a chosen level whose bbox is overlapped by the task coverage by more than
+             0.1 px (of that level) in both axes                                      -> must be handed
   forbidden  every meta tile farther than 0.1 px (own level) from the coverage        -> must not be handed
              (with skip_geoms_for_last_levels > 0: farther than 0.1 px from the coverage *extent*)
   resume     for every interruption point k and the progress file as it was at k:
@@ -50,7 +50,9 @@ ASSUMPTIONS = [
     'intersection arithmetic (exact rationals for bboxes, shapely predicates with a 1e-6-px guard band for polygons)',
     'tile geometry from the exact-rational reference grid (refgrid.py) over the configured floats; grid_sizes are '
     'taken from the grid object (their correctness is C03)',
-    'the documented 0.1-px inset is granted: tiles touched by <= 0.1 px of their own level are neither required nor forbidden',
+    'the documented 0.1-px inset is granted: a tile is required only if the coverage overlaps its bbox by more than 0.1 px of '
+    'its own level in both axes (in non-nesting pyramids: overlaps one of the pieces into which the tile edges of the coarser '
+    'levels cut that bbox), and forbidden only if it is farther than 0.1 px from the coverage',
     'with skip_geoms_for_last_levels > 0 extra tiles are only demanded to be inside the grid, of a chosen level and '
     'within 0.1 px of the coverage extent (bbox)',
     'a walk that raises GridError did not run to completion: counted as aborted, never judged',
@@ -59,7 +61,7 @@ ASSUMPTIONS = [
 ]
 
 ETA = Fr(1, 10 ** 6)          # relative guard band around the 0.1-px inset
-N_QUICK = 4000
+N_QUICK = 6400
 N_THOROUGH = 120000
 MAX_CELLS = 400               # generated tasks are kept below this many meta tiles (flat estimate)
 REAL_ALL_K = 30               # really interrupted runs for every k up to this many process() calls, 16 sampled k above
@@ -163,6 +165,14 @@ def _read_file(path):
         return None
 
 
+def _pointers(state):
+    """progress identifiers stored in a progress file that make a continued run skip something"""
+    if state is None:
+        return []
+    import pickle
+    return [v for v in pickle.loads(state).values() if v is not None]
+
+
 def save_decision(rule, i):
     kind = rule['kind']
     if kind == 'all':
@@ -250,6 +260,7 @@ class Env(object):
         else:
             with open(self.store_path, 'wb') as f:
                 f.write(state)
+            os.chmod(self.store_path, 0o644)     # ProgressStore ignores world-writable files
         clock = _Clock()
         rule = self.case['save']
         counter = [0]
@@ -429,6 +440,26 @@ class Coverage(object):
                     return True
         return False
 
+    def overlaps_by(self, rect, s):
+        """is the part of the coverage inside `rect` more than `s` wide and more than `s` high?"""
+        for b in self.boxes:
+            if min(b[2], rect[2]) - max(b[0], rect[0]) > s and min(b[3], rect[3]) - max(b[1], rect[1]) > s:
+                return True
+        if self.geoms:
+            import shapely.geometry
+            box = shapely.geometry.box(*[float(v) for v in rect])
+            fs = float(s)
+            for g in self.geoms:
+                if not g.intersects(box):
+                    continue
+                part = g.intersection(box)
+                if part.is_empty:
+                    continue
+                x0, y0, x1, y1 = part.bounds
+                if x1 - x0 > fs and y1 - y0 > fs:
+                    return True
+        return False
+
 
 def grow(rect, d):
     return (rect[0] - d, rect[1] - d, rect[2] + d, rect[3] + d)
@@ -462,7 +493,19 @@ def reachable(pyr, cov, E, cell, mode, last_level, allow_oog=False):
             return max(2 * pyr.tau(z), pyr.delta(last_level) * (1 - ETA) - pyr.tau(z))
         return 2 * pyr.tau(z)
 
+    memo = {}
+    budget = [20000]
+
     def rec(z, R):
+        key = (z, R)
+        if key not in memo:
+            budget[0] -= 1
+            if budget[0] < 0:
+                raise _Budget()
+            memo[key] = rec_(z, R)
+        return memo[key]
+
+    def rec_(z, R):
         rng = pyr.index_range(R, inset(z), z)
         if rng is None:
             return False
@@ -493,7 +536,19 @@ def reachable(pyr, cov, E, cell, mode, last_level, allow_oog=False):
     return rec(0, tuple(Fr(v) for v in E))
 
 
+class _Budget(Exception):
+    pass
+
+
 def classify_missing(pyr, cov, E, cell, last_level):
+    """root cause of a required meta cell that was not handed (None: the classification budget was exhausted)"""
+    try:
+        return _classify_missing(pyr, cov, E, cell, last_level)
+    except _Budget:
+        return None
+
+
+def _classify_missing(pyr, cov, E, cell, last_level):
     if reachable(pyr, cov, E, cell, 'strict', last_level):
         return SIG_REACHABLE
     if reachable(pyr, cov, E, cell, 'last', last_level):
@@ -509,8 +564,33 @@ def classify_missing(pyr, cov, E, cell, last_level):
 # evaluation of one concrete case
 
 
+def pieces(pyr, cell):
+    """the bbox of a meta cell cut along the cell edges of all coarser (traversed) levels that run through it;
+    in a nested pyramid this is the bbox itself"""
+    cx, cy, L = cell
+    r = pyr.rect(cx, cy, L)
+    t = pyr.tau(L)
+    xs, ys = set(), set()
+    for z in range(L):
+        cw, ch = pyr.cw(z)
+        ox = pyr.ref.bbox[0]
+        oy = pyr.ref.bbox[3] if pyr.ul else pyr.ref.bbox[1]
+        for k in range(math.ceil((r[0] - ox) / cw), math.floor((r[2] - ox) / cw) + 1):
+            e = ox + k * cw
+            if r[0] + t < e < r[2] - t:
+                xs.add(e)
+        for k in range(math.ceil((r[1] - oy) / ch), math.floor((r[3] - oy) / ch) + 1):
+            e = oy + k * ch
+            if r[1] + t < e < r[3] - t:
+                ys.add(e)
+    xs = [r[0]] + sorted(xs) + [r[2]]
+    ys = [r[1]] + sorted(ys) + [r[3]]
+    return [(xs[i], ys[j], xs[i + 1], ys[j + 1]) for i in range(len(xs) - 1) for j in range(len(ys) - 1)]
+
+
 def required_cells(pyr, cov, z):
-    """flat enumeration: in-grid cells of level z with a coverage point more than 0.1 px inside"""
+    """flat enumeration: in-grid cells of level z whose bbox (in a non-nesting pyramid: one of its pieces between
+    the tile edges of the coarser levels) is overlapped by the coverage by more than 0.1 px of level z in both axes"""
     nx, ny = pyr.ncells(z)
     b = cov.bounds
     x0, x1 = max(0, pyr.ix(b[0], z) - 1), min(nx - 1, pyr.ix(b[2], z) + 1)
@@ -520,7 +600,9 @@ def required_cells(pyr, cov, z):
     out = []
     for cx in range(x0, x1 + 1):
         for cy in range(y0, y1 + 1):
-            if cov.hits(grow(pyr.rect(cx, cy, z), -s)):
+            if not cov.hits(pyr.rect(cx, cy, z)):
+                continue
+            if any(cov.overlaps_by(p, s) for p in pieces(pyr, (cx, cy, z))):
                 out.append((cx, cy, z))
     return out
 
@@ -604,6 +686,9 @@ def check_handed(env, full, pyrs, covs, Es, excuse, st_, out):
                 if cell in handed_cells[ti]:
                     continue
                 sig = classify_missing(pyr, cov, Es[ti], cell, max(task.levels))
+                if sig is None:
+                    st_.inconclusive['missing-tile-classification-budget'] += 1
+                    continue
                 if sig in excuse:
                     st_.excluded['required-tile-excused:' + sig.split('/')[-1]] += 1
                     out.setdefault('excused', set()).add(sig)
@@ -672,7 +757,7 @@ def evaluate(case, st_, excuse=(), size_guard=True):
                 state_first_k[s] = k
                 order.append(s)
         info['states'] = len(order)
-        inside_after_save = any(s is not None and 0 < k for s, k in state_first_k.items())
+        inside_after_save = any(_pointers(s) and 0 < k for s, k in state_first_k.items())
         real_ks = list(range(N)) if N <= REAL_ALL_K else sorted(set(int(f * N) % N for f in case['k_picks']))
         exc_kind = case.get('exc', 'seed')
         mismatch = False
@@ -688,7 +773,8 @@ def evaluate(case, st_, excuse=(), size_guard=True):
         st_.extra['interruption_points_real'] = st_.extra.get('interruption_points_real', 0) + len(real_ks)
         if mismatch and N > REAL_ALL_K:
             st_.inconclusive['interrupt-path-differs-sampled-only'] += 1
-        states = order
+        # a progress file without any stored identifier makes the continued run identical to the uninterrupted one
+        states = [s for s in order if _pointers(s)]
         if len(states) > MAX_STATES:
             step = len(states) / float(MAX_STATES)
             states = [states[int(i * step)] for i in range(MAX_STATES)]
@@ -698,7 +784,7 @@ def evaluate(case, st_, excuse=(), size_guard=True):
             k = state_first_k[s]
             b = env.run(state=s)
             _judge_resume(out, case, full, full_set, k, None, b, 'k=%d' % k, first_index)
-            if s is not None and b.outcome == 'complete' and len(b.handed) > 1:
+            if b.outcome == 'complete' and len(b.handed) > 1:
                 chain.append((k, s, b))
         st_.extra['interruption_points'] = st_.extra.get('interruption_points', 0) + N
         st_.extra['continued_runs'] = st_.extra.get('continued_runs', 0) + len(states)
@@ -1223,7 +1309,7 @@ def minimise(case, sig, budget=24):
 
 def random_shard(shard, nshards, seed, tier):
     st_ = core.Stats()
-    n = (N_QUICK if tier == 'quick' else N_THOROUGH) // nshards
+    n = int((N_QUICK if tier == 'quick' else N_THOROUGH) * float(os.environ.get('VERIF_C11_SCALE') or 1)) // nshards
     core.hyp_search(specs(), check_spec, st_, max_examples=n, seed=seed, shrink=False)
     for sig, (size, msg, case) in st_.extra.pop('_best', {}).items():
         v = core.Violation(sig, msg, case)
